@@ -1,26 +1,24 @@
-"""Per-property configuration of the checks (read by ./check and scripts/gen_manifest.py)."""
+"""Per-property configuration of the checks (read by ./check and scripts/gen_manifest.py).
 
-EXTRA_BUILDS = []  # callables(check_module) -> bool, run by `./check --build`
+Each file scripts/props.d/<ID>.py defines PROP = {...} (see props.d/C01.py for the keys) and may
+define EXTRA_BUILD(check_module) -> bool, run by `./check --build`.
+"""
+import glob
+import importlib.util
+import os
+import sys
 
-COMMON_ASSUME = [
-    "harness generators and oracles are correct (cross-checked where a second opinion exists, see DESIGN.md §9)",
-    "release profile, x86-64 Linux; verdict covers only the executions produced by this run's seeds",
-]
+HERE = os.path.dirname(os.path.abspath(__file__))
+sys.path.insert(0, HERE)
+from props_common import COMMON_ASSUME  # noqa: F401,E402
 
+EXTRA_BUILDS = []
 PROPS = {}
-
-PROPS["C01"] = {
-    "title": "Syntax trees are lossless for every input text",
-    "engine": "E1",
-    "level": "exploration",
-    "technique": "runtime monitor: losslessness/tiling oracle over generated and mutated inputs (+ Miri shard in thorough)",
-    "design_ref": "§4 C01",
-    "rule": "cases = fragment soup / mutated corpus files / corpus verbatim / lossy random bytes / hand-picked recovery seeds x 8 language levels x doc on/off x shared NodeCache on/off; "
-            "distinct = FNV of (text, level, doc); non-trivial = the produced tree has >= 8 tokens",
-    "min_nontrivial": {"quick": 100000, "thorough": 2000000},
-    "max_secs": {"quick": 60, "thorough": 900},
-    "require_clauses": ["a:text-equal", "b:tokens-tile", "family:soup", "family:corpus-mutant", "family:lossy-bytes", "family:special"],
-    "assumptions": COMMON_ASSUME + ["inputs are UTF-8 strings <= 64 KiB (the API takes &str)"],
-    "level_text": "Every generated input is parsed by the real LuaParser and an oracle checks byte-exact text equality and token tiling; ~400k (quick) to ~10M (thorough) inputs over all language levels. Exploration, not proof: it shows absence of loss on the inputs produced.",
-    "level_note": "Trusts rowan's text()/text_range() accessors and the harness oracle; inputs limited to UTF-8 <= 64 KiB.",
-}
+for _f in sorted(glob.glob(os.path.join(HERE, "props.d", "C*.py"))):
+    _id = os.path.basename(_f)[:-3]
+    _spec = importlib.util.spec_from_file_location(f"props_d_{_id}", _f)
+    _m = importlib.util.module_from_spec(_spec)
+    _spec.loader.exec_module(_m)
+    PROPS[_id] = _m.PROP
+    if hasattr(_m, "EXTRA_BUILD"):
+        EXTRA_BUILDS.append(_m.EXTRA_BUILD)
